@@ -198,7 +198,9 @@ theorem walkedScores_aligned {cols : List ι} {score : ι → α → α} {c : Co
 theorem walkedScores_length {cols : List ι} {score : ι → α → α} {c : Conditions ι α}
     (hw : WellFormed cols c) : (walkedScores cols score c.items).length = c.items.length := by
   have h := (walked_perm hw.cols_nodup hw.keys_nodup hw.keys_sub).length_eq
-  rw [← walkedScores_fst cols score c.items] at h
+  have h2 := congrArg List.length (walkedScores_fst cols score c.items)
+  simp only [List.length_map] at h2
+  rw [h2]
   simpa [Conditions.keys] using h
 
 theorem walkedScores_ne_nil {cols : List ι} {score : ι → α → α} {c : Conditions ι α}
